@@ -155,6 +155,45 @@ def per_program(p):
         check_input(p, src, kind, p.col)
 
 
+def check_late_definition(col):
+    """unmarshal(T, x) fails because a class T's annotations name does not exist yet, the caller handles the NameError, the
+    class is declared, the same call again: what is returned now must conform to T like in a module where nothing ever failed"""
+    from harness import late
+    from harness.oracles import snapshot
+    inputs_ = {"Order": ["{'number': '7', 'first': {'sku': 'a', 'qty': '2'}, 'items': [{'sku': 'b'}]}", "{'number': 1, 'first': {'sku': 1}, 'items': []}",
+                         "{'number': 'x', 'first': {}, 'items': []}"],
+               "ItemAlias": ["{'sku': 'a', 'qty': '3'}", "{'qty': 1}"], "ItemList": ["[{'sku': 'a', 'qty': '3'}]", "'[{\"sku\": \"z\"}]'"],
+               "LazyItems": ["[{'sku': 'a', 'qty': '3'}]"], "LazyMap": ["{'k': {'sku': 'a', 'qty': '3'}}"], "ItemRef": ["{'sku': 'q', 'qty': '4'}"]}
+    for name, srcs in inputs_.items():
+        for early_ops in (("unmarshal",), ("unmarshaller",), ("unmarshal", "unmarshal")):
+            tl.clear_all()
+            twin = late.TwoPhase("c03twin").declare()
+            ref = {}
+            for src in srcs:
+                k, r = tl.call(tl.unmarshal, twin.mod.__dict__[name], eval(src))  # noqa: S307
+                ref[src] = twin.norm(repr((k, snapshot(r) if k == "ok" else tl.exc_name(r))))
+            twin.close()
+            tl.clear_all()
+            tp_ = late.TwoPhase("c03")
+            try:
+                T = tp_.mod.__dict__[name]
+                for op in early_ops:   # phase 1: expected to fail, handled
+                    tl.call(tl.unmarshal, T, eval(srcs[0])) if op == "unmarshal" else tl.call(tl.unmarshaller, T)  # noqa: S307
+                tp_.declare()
+                for src in srcs:
+                    col.ev()
+                    col.nt(f"late|{name}|{early_ops}|{src}")
+                    col.label("late-definition")
+                    k, r = tl.call(tl.unmarshal, tp_.mod.__dict__[name], eval(src))  # noqa: S307
+                    got = tp_.norm(repr((k, snapshot(r) if k == "ok" else tl.exc_name(r))))
+                    if got != ref[src]:
+                        col.violation("conforms", {"late": name, "early_ops": list(early_ops), "input": src},
+                                      f"unmarshal({name}, {src}) after a first attempt failed before the referenced class existed: {got[:300]}; "
+                                      f"in a module where nothing failed before: {ref[src][:300]}", bucket=f"late-definition|{name}")
+            finally:
+                tp_.close()
+
+
 def plan(tier, seed):
     n = 160 if tier == "quick" else 1500
     depth = 4 if tier == "quick" else 5
@@ -163,10 +202,14 @@ def plan(tier, seed):
     shards += [{"seed": seed * 1000 + 70 + k, "n": n, "depth": 3, "repeated": True} for k in range(2)]
     shards.append({"kind": "byteslike"})
     shards.append({"kind": "mapping-text"})
+    shards.append({"kind": "late-definition"})
     return shards
 
 
 def run_shard(shard, col):
+    if shard.get("kind") == "late-definition":
+        check_late_definition(col)
+        return
     if shard.get("kind") == "byteslike":
         check_byteslike(col)
         return
@@ -183,6 +226,9 @@ def replay(clause, case, col):
         return
     if case.get("mapping_text"):
         check_mapping_text(col)
+        return
+    if case.get("late"):
+        check_late_definition(col)
         return
     progs.replay_program(case, col, lambda p: check_input(p, case["input"], "replay", col))
 
